@@ -1,6 +1,7 @@
 package main
 
 import (
+	"github.com/XiXi-2024/xixi-kv/datafile"
 	"verifharness/h"
 )
 
@@ -14,6 +15,7 @@ type genOpts struct {
 	batches, merges, restarts, emptyKey bool
 	backups                             bool // Backup calls in between (the copy is thrown away: only the source is followed)
 	bigKeys                             bool // keys of 9 000-40 000 bytes: index entries and hint records span blocks
+	brim                                bool // ends with values that fill the active file exactly to what the engine's estimate allows
 	ops                                 int
 	prof                                string
 	limits                              []int64
@@ -150,6 +152,40 @@ func randomWorkload(en *Env, cfg h.Cfg, nkeys int, o genOpts, reopenCfg func() h
 			e.Put(k, newVal())
 		}
 		e.Dump()
+	}
+	if o.brim && !e.Dead && e.DB != nil && e.Cfg.Limit >= 2000 && e.Cfg.Limit <= 1<<21 {
+		// a small record, then the largest value that the engine's own size estimate still lets into that file (several
+		// blocks under the larger limits), and one byte more (which must rotate): the file must not outgrow the limit
+		for round := 0; round < 2 && !e.Dead; round++ {
+			e.Merge() // (rotates: the small record below is the first one of a fresh active file)
+			e.Dump()
+			if e.Dead {
+				break
+			}
+			id0, _ := vs.New(10 + r.Intn(50))
+			e.Put(1, id0)
+			e.Dump()
+			var off int64
+			for _, f := range e.DB.VerifState().Files {
+				if f.Active {
+					off = f.Size
+				}
+			}
+			lo, hi := 0, int(e.Cfg.Limit)
+			for lo < hi {
+				m := (lo + hi + 1) / 2
+				if off+int64(datafile.GetLogRecordDiskSize(klen, m)) <= e.Cfg.Limit {
+					lo = m
+				} else {
+					hi = m - 1
+				}
+			}
+			if off > 0 && lo > 0 {
+				id, _ := vs.New(lo + round)
+				e.Put(1+r.Intn(nkeys), id)
+				e.Dump()
+			}
+		}
 	}
 	if !e.Dead && e.DB != nil {
 		h.WithoutCapture(func() { e.DB.Close() })
